@@ -124,12 +124,23 @@ impl<F: FnOnce(&mut World) + Send + 'static> Command for F
 pub struct ErasedCommand
 {
     pub cell: ErasedCell,
+    /// monomorphic apply function; used ONLY by the opt-in applier `apply_via_fn_pointer` (harnesses whose reachable
+    /// command types are few and include closures that cannot be named, e.g. the cleanup closure queued by
+    /// `run_initialized_system` for exclusive systems)
+    apply_fn: Option<unsafe fn(ErasedCell, &mut World)>,
+}
+unsafe fn apply_erased<C: Command>(cell: ErasedCell, world: &mut World) { cell.take::<C>().apply(world) }
+
+/// opt-in applier: dispatches through the command's own function pointer (see `ErasedCommand::apply_fn`)
+pub fn apply_via_fn_pointer(cmd: ErasedCommand, world: &mut World)
+{
+    match cmd.apply_fn { Some(f) => unsafe { f(cmd.cell, world) }, None => panic!("empty command slot applied") }
 }
 
 impl ErasedCommand
 {
-    pub const EMPTY: ErasedCommand = ErasedCommand{ cell: ErasedCell::EMPTY };
-    pub fn new<C: Command>(c: C) -> Self { Self{ cell: ErasedCell::new(c) } }
+    pub const EMPTY: ErasedCommand = ErasedCommand{ cell: ErasedCell::EMPTY, apply_fn: None };
+    pub fn new<C: Command>(c: C) -> Self { Self{ cell: ErasedCell::new(c), apply_fn: Some(apply_erased::<C>) } }
     pub fn is<C: Command>(&self) -> bool { self.cell.is::<C>() }
     /// verification-only: typed extraction (panics on mismatch)
     pub fn m_take<C: Command>(self) -> C { self.cell.take::<C>() }
@@ -488,6 +499,7 @@ impl World
     /// verification-only: declare the types the model may drop / the command types it may apply on flush
     pub fn m_drop_table<L: crate::model::cell::DropList>(&mut self) { unsafe { mstate::DROPPER = L::drop_cell; } }
     pub fn m_apply_table<L: ApplyList>(&mut self) { unsafe { mstate::APPLIER = L::apply_cmd; } }
+    pub fn m_apply_via_fn_pointer(&mut self) { unsafe { mstate::APPLIER = apply_via_fn_pointer; } }
     pub fn m_set_cmd_mode(&mut self, mode: CmdMode) { unsafe { mstate::CMD_MODE = mode; } }
     /// number of `Commands::queue` calls so far (any queue of this harness, any mode)
     pub fn m_queued(&self) -> usize { unsafe { mstate::QUEUED } }
